@@ -63,6 +63,10 @@ impl<'a> G<'a> {
         let name = format!("v{}", self.var_n);
         // variable type: the location type, or stricter (non-null / with default)
         let mut vty = ty.clone();
+        // ... also *inside* list wrappers: `[T!]!` may flow into `[T]` (AreTypesCompatible is covariant in non-null at every level)
+        if vty.list_depth() > 0 && rng.chance(1, 2) {
+            vty = stricten_inner(&vty, rng);
+        }
         let mut default = None;
         if !vty.is_non_null() && rng.chance(1, 4) {
             vty = Ty::non_null(vty);
@@ -245,6 +249,28 @@ impl<'a> G<'a> {
             }
         }
         SelSet { p: P::none(), items }
+    }
+}
+
+/// a subtype of `t` obtained by making some nullable positions below a list wrapper non-null (the outermost level is left alone)
+fn stricten_inner(t: &Ty, rng: &mut Rng) -> Ty {
+    fn go(t: &Ty, rng: &mut Rng, top: bool) -> Ty {
+        match t {
+            Ty::NonNull(i) => Ty::non_null(go(i, rng, true)),
+            Ty::List(i, p) => {
+                let inner = go(i, rng, false);
+                let l = Ty::List(Box::new(inner), p.clone());
+                if !top && rng.coin() { Ty::non_null(l) } else { l }
+            }
+            Ty::Named(n) => {
+                if !top && rng.coin() { Ty::non_null(Ty::Named(n.clone())) } else { Ty::Named(n.clone()) }
+            }
+        }
+    }
+    // `top` = this node is the outermost type or sits directly under a NonNull wrapper (already strict)
+    match t {
+        Ty::NonNull(i) => Ty::non_null(go(i, rng, true)),
+        t => go(t, rng, true),
     }
 }
 
